@@ -909,6 +909,7 @@ INTRACTABLE = {
     ('par2', 'fmap_fil', 'collect'), ('seq', 'fmap_fil', 'collect'), ('seq', 'map', 'collect_x'), ('seq', 'map_fil', 'collect_x'),
     ('par2', 'flat_fil', 'collect_vec'), ('seq', 'flat_fil', 'collect_vec'),
     ('seq', 'map', 'into_split_full'), ('seq', 'map_fil', 'into_split_full'), ('seq', 'empty', 'into_split_full'),  # 57 GB
+    ('par2', 'map', 'into_split_full'), ('par2', 'empty', 'into_split_full'),  # > 16 GB
 }
 # thorough tier: every chain with collect_vec, the eight base chains with every terminal
 BASE_CHAINS = ('empty', 'map', 'fil', 'map_fil', 'fmap', 'fmap_fil', 'flat', 'flat_fil')
@@ -973,6 +974,8 @@ def gen_api():
                     body.append('    let got = %s;' % pe.replace('{P}', 'source(it, params)' + pc))
                     body.append('    let exp = %s;' % se.replace('{S}', 'src_iter(data, %d)' % n + sc))
                     body.append(CMP[cmpk].replace('{PR}', pr).replace('\n        ', '\n    '))
+                    if not par and term not in SHORT and term not in ('reduce', 'fold'):
+                        body.append('    assert!(same_call_multiset(&log, &log2), "C05: the multiset of (stage, argument) closure calls differs from the sequential chain");')
                     if not par:
                         body.append('    assert!(same_call_sequence(&log, &log2), "C09: in sequential mode the closures must see exactly the call sequence of the std iterator chain");')
                         body.append('    assert!(log.pulls.get() == 0, "C08: sequential mode must not pull through the concurrent interface");')
